@@ -412,6 +412,22 @@ func runDefxFileSets() defxResult {
 			res.add("duplicate-name-accepted", "a pipeline name declared in two files is accepted ("+n+")")
 		}
 	}
+	// the same name declared twice with the very same body (copy of a file, include by two globs): still not unique
+	for _, n := range []string{"dup-identical-ab", "dup-identical-ba"} {
+		dir := filepath.Join(base, n)
+		f1, f2 := "a/pipelines.yml", "b/pipelines.yml"
+		if n == "dup-identical-ba" {
+			f1, f2 = f2, f1
+		}
+		writeFile(dir, f1, "pipelines:\n"+gA.yaml("alpha"))
+		writeFile(dir, f2, "pipelines:\n"+gA.yaml("alpha")+gB.yaml("beta"))
+		_, err := load(dir)
+		res.Cases++
+		res.Distinct++
+		if err == nil {
+			res.add("duplicate-name-accepted", "a pipeline name declared in two files (with identical bodies) is accepted ("+n+")")
+		}
+	}
 	// duplicate inside one file is a YAML-level matter (later key wins or error): not asserted
 	res.Samples = append(res.Samples, "file sets: one file, two files (both orders), nested directories (both orders), duplicate names (both orders)")
 	return res
